@@ -176,8 +176,73 @@ def observe(c, rid, rng):
 
 VS_HISTS = []
 
+# sizes at which the copies between caller arrays and plan buffers cross the block sizes such code is usually written with
+# (the model's layout laws are uniform in the sizes; the implementation is sampled where a size-dependent path would switch):
+# totals of 2^12..2^16 elements, their neighbours, and the r2c shapes whose HALF spectrum is such a total
+# (no axis longer than 4096: the reference FFTW shim is a plain O(n^2) DFT along each axis)
+LARGE_DIMS = [[4096], [4097], [64, 64], [63, 65], [128, 128], [256, 256], [16, 16, 16], [17, 16, 16], [32, 16, 16], [32, 32, 14],
+              [8, 8, 8, 8], [16, 16, 30], [256, 16], [2, 2048], [64, 128]]
+
+
+def observe_large(c, rng):
+    """A large plan: the element maps are too long to validate one by one with TLC; what is checked is what they imply --
+    every caller element reaches the plan's input exactly once, every returned element comes from a distinct place of the
+    plan's output, the result equals numpy's DFT (twice, different data: a stale part of a buffer shows), and
+    forward o backward = N x."""
+    dims, nt = c["dims"], c["nt"]
+    w = FFTWrapper(list(dims), ntransform=nt, fwd=c["fwd"], r2c=c["r2c"], inplace=c["inplace"], batch_first=c["bf"])
+    in_real = c["r2c"] and c["fwd"]
+    out_real = c["r2c"] and not c["fwd"]
+    ish, osh = tuple(w.input_shape), tuple(w.output_shape)
+    w.call(np.zeros(ish, dtype=np.float64 if in_real else np.complex128))
+    p = ctypes.cast(w._ptr, ctypes.POINTER(PlanStruct)).contents
+    in_bytes = libfft.fftw_shim_alloc_size(p.in_)
+    out_bytes = in_bytes if c["inplace"] else libfft.fftw_shim_alloc_size(p.out)
+    in_alloc = in_bytes // (8 if in_real else 16)
+    out_alloc = out_bytes // (8 if out_real else 16)
+    nin = int(np.prod(ish))
+    ib = view(p.in_, in_alloc, in_real)
+    ib[:] = -1
+    x = np.arange(nin, dtype=np.float64 if in_real else np.complex128).reshape(ish)
+    libfft.write_fft_input(w._ptr, x.ctypes.data_as(ctypes.c_void_p))
+    got = np.real(np.array(ib)).astype(np.int64)
+    tags = got[got >= 0]
+    write_ok = bool(tags.size == nin and np.array_equal(np.sort(tags), np.arange(nin)))
+    ob = view(p.out, out_alloc, out_real)
+    ob[:] = np.arange(out_alloc)
+    y = np.full(osh, -1, dtype=np.float64 if out_real else np.complex128)
+    libfft.read_fft_output(w._ptr, y.ctypes.data_as(ctypes.c_void_p))
+    r = np.real(y).astype(np.int64).ravel()
+    read_ok = bool((r >= 0).all() and np.unique(r).size == r.size)
+    tol = 1e-12 * max(1, int(np.prod(dims))) * 10
+
+    def rand_in():
+        if out_real:
+            return hermitian_input(rng, c, ish)
+        if in_real:
+            return rng.normal(size=ish)
+        return rng.normal(size=ish) + 1j * rng.normal(size=ish)
+    num_ok, errs = True, []
+    for _ in range(2):
+        xin = rand_in()
+        xin0 = xin.copy()
+        yout = w.call(xin)
+        ref = ref_dft(xin0.astype(np.complex128) if not in_real else xin0, c)
+        e = float(np.abs(yout - ref).max()) / max(1.0, float(np.abs(ref).max())) if yout.shape == ref.shape else float("inf")
+        errs.append(e)
+        num_ok &= bool(e <= tol) and bool(np.array_equal(xin, xin0))
+    w2 = FFTWrapper(list(dims), ntransform=nt, fwd=not c["fwd"], r2c=c["r2c"], inplace=c["inplace"], batch_first=c["bf"])
+    xin = rand_in()
+    back = w2.call(w.call(xin))
+    N = int(np.prod(dims))
+    roundtrip_ok = bool(back.shape == xin.shape and np.abs(back - N * xin).max() <= tol * N * max(1.0, np.abs(xin).max()))
+    return {"cfg": c, "write_ok": write_ok, "read_ok": read_ok, "num_ok": num_ok, "roundtrip_ok": roundtrip_ok, "max_rel_err": max(errs)}
+
 
 def worker(job):
+    if job.get("kind") == "large":
+        rng = np.random.default_rng(job["seed"])
+        return {"id": job["id"], "large": [observe_large(c, rng) for c in job["plans"]]}
     VS_HISTS[:] = job["vs_hists"]
     rng = np.random.default_rng(job["seed"])
     return {"id": job["id"], "recs": [observe(c, rid, rng) for rid, c in job["plans"]]}
@@ -228,8 +293,27 @@ def main():
     indexed = [(k + 1, c) for k, c in enumerate(space)]
     nchunk = 64
     jobs = [{"id": j, "plans": indexed[j::nchunk], "seed": ck.seed + j, "vs_hists": list(VS_HISTS)} for j in range(nchunk)]
+    large = [{"dims": list(d), "r2c": r2c, "fwd": fwd, "inplace": inplace, "bf": bf, "nt": nt}
+             for d in LARGE_DIMS for r2c, fwd, inplace, bf in itertools.product([False, True], repeat=4)
+             for nt in ((1, 2) if ck.tier == "quick" else (1, 2, 3, 4))]
+    jobs += [{"id": nchunk + j, "kind": "large", "plans": large[j::16], "seed": ck.seed + 1000 + j} for j in range(16)]
     recs = []
+    nlarge = 0
     for res in run_workers(os.path.abspath(__file__), jobs, nproc=16, timeout=7000, allow_crash=True):
+        if "worker_died" in res and any(job.get("kind") == "large" for job in res["jobs"]):
+            cfgs = [c for job in res["jobs"] for c in job["plans"]]
+            ck.violation("plan:large:process-died", {"returncode": res["worker_died"], "first_cfgs": cfgs[:3], "log": res["log"][-600:]}, replay={"cfg": cfgs[0]})
+            continue
+        if "large" in res:
+            for o in res["large"]:
+                c = o["cfg"]
+                nlarge += 1
+                ck.count(key=("large", tuple(c["dims"]), c["r2c"], c["fwd"], c["inplace"], c["bf"], c["nt"]))
+                failed = [k for k in ("write_ok", "read_ok", "num_ok", "roundtrip_ok") if not o[k]]
+                if failed:
+                    ck.violation("plan:large:r2c=%d,fwd=%d,inplace=%d,bf=%d:%s" % (c["r2c"], c["fwd"], c["inplace"], c["bf"], failed[0]),
+                                 {"cfg": c, "failed": failed, "max_rel_err": o["max_rel_err"]}, replay={"cfg": c})
+            continue
         if "worker_died" in res:
             cfgs = [c for job in res["jobs"] for _, c in job["plans"]]
             ck.violation("plan:process-died", {"returncode": res["worker_died"], "n_plans_in_chunk": len(cfgs), "first_cfgs": cfgs[:3], "log": res["log"][-600:]},
@@ -249,8 +333,9 @@ def main():
         ck.count(key=(tuple(c["dims"]), c["r2c"], c["fwd"], c["inplace"], c["bf"], c["nt"]) if max(c["dims"]) > 1 else None)
     for rec in recs[:3]:
         ck.sample({kk: rec[kk] for kk in ("cfg", "plan", "w", "fin", "max_rel_err")})
-    ck.log("observed %d plans on the implementation" % len(recs))
-    res = validate_records("Trace_FFTLayout", "Trace_FFTLayout.cfg", recs, nchunks=8)
+    ck.log("observed %d plans on the implementation, and %d large plans at block-size boundaries" % (len(recs), nlarge))
+    ck.extra["large_plans"] = "%d plans with totals of 2^12..2^16 elements and their neighbours (%s): copy maps complete and injective, DFT equals numpy twice, round trip" % (nlarge, LARGE_DIMS)
+    res = validate_records("Trace_FFTLayout", "Trace_FFTLayout.cfg", recs, nchunks=8 if ck.tier == "quick" else 16, timeout=1800 if ck.tier == "quick" else 10000)
     ck.traces += res["accepted"]
     ck.states += res["states"]
     ck.transitions += res["generated"]
